@@ -59,18 +59,25 @@ contract(FC + "::CellCycleController.acquire_resource", "C14",
          params={"ctx": "obj:OperationContext"}, pre_state=ALIAS, callbacks=GRAPH, raises=["ValueError"],
          # registry well-formedness, instantiated for the requested id (the registry is keyed by each lock's own id)
          requires=["implies(resource_id in self.resources, self.resources[resource_id].resource_id == resource_id)"],
-         inline=False, returns="enum:LockResult", modifies=["ctx.acquired_resources"],
+         inline=False, returns="enum:LockResult", modifies=["ctx.acquired_resources", "self.resources[*]"], ghost_params={"r0": "str"},
          ensures={
              "granted-means-owned-and-tracked": "implies(result != LockResult.BLOCKED, self.resources[resource_id].owner == ctx.operation_id "
                                                 "and resource_id in ctx.acquired_resources and ctx.acquired_resources[resource_id] is self.resources[resource_id])",
              "blocked-means-not-owned": "implies(result == LockResult.BLOCKED, self.resources[resource_id].owner != ctx.operation_id)",
-         })
+             # registry-wide frame, for an arbitrary other resource id r0: its lock and its tracking are untouched
+             "other-resources-untouched": "implies(r0 != resource_id and r0 in self.resources, self.resources[r0].owner == old(self).resources[r0].owner and "
+                                          "self.resources[r0].hold_count == old(self).resources[r0].hold_count)",
+             "other-tracking-untouched": "implies(r0 != resource_id, (r0 in ctx.acquired_resources) == (r0 in old(ctx).acquired_resources))",
+             "lock-ids-unchanged": "implies(r0 in self.resources, self.resources[r0].resource_id == old(self).resources[r0].resource_id)",
+             "tracking-only-grows-by-a-grant": "implies(result == LockResult.BLOCKED, (resource_id in ctx.acquired_resources) == (resource_id in old(ctx).acquired_resources))",
+         },
+         xensures={"unknown-resource-changes-nothing": "implies(r0 in self.resources, self.resources[r0].owner == old(self).resources[r0].owner and "
+                                                       "self.resources[r0].hold_count == old(self).resources[r0].hold_count and "
+                                                       "self.resources[r0].resource_id == old(self).resources[r0].resource_id) and "
+                                                       "(r0 in ctx.acquired_resources) == (r0 in old(ctx).acquired_resources)"})
 
 REL_LOOP = "for resource_id in list(ctx.acquired_resources.keys())"
-contract(FC + "::CellCycleController.release_all_resources", "C14",
-         params={"ctx": "obj:OperationContext"}, pre_state=ALIAS, callbacks=GRAPH, raises=[],
-         ghost_params={"r0": "str"},
-         loops={REL_LOOP: {
+REL_SPEC = {
              "invariant": [
                  # whole-registry statement for an ARBITRARY resource id r0: a tracked resource whose turn has passed is not owned by the operation ...
                  "implies(in_visit(r0) and visit_index(r0) < _k and r0 in self.resources, self.resources[r0].owner != ctx.operation_id)",
@@ -88,45 +95,70 @@ contract(FC + "::CellCycleController.release_all_resources", "C14",
                                 "self.resources[r0].hold_count == old(self).resources[r0].hold_count)"],
              "exhaustive": True,      # the per-resource clause speaks about every tracked resource only if no element is skipped
              "modifies": [],
-         }},
+         }
+contract(FC + "::CellCycleController.release_all_resources", "C14",
+         params={"ctx": "obj:OperationContext"}, pre_state=ALIAS, callbacks=GRAPH, raises=[],
+         ghost_params={"r0": "str"},
+         loops={REL_LOOP: REL_SPEC},
          ensures={
              "no-tracked-resource-is-still-owned": "implies(r0 in old(ctx).acquired_resources and r0 in self.resources, self.resources[r0].owner != ctx.operation_id)",
              "untracked-resources-are-untouched": "implies(r0 not in old(ctx).acquired_resources and r0 in self.resources, "
                                                   "self.resources[r0].owner == old(self).resources[r0].owner and "
                                                   "self.resources[r0].hold_count == old(self).resources[r0].hold_count)"})
 
+# complete / abort: release_all_resources is INLINED here (its loop is cut with the same specification), so the registry-wide clauses are
+# postconditions of the two operations that end a coordinated operation -- for an arbitrary resource id r0
 contract(FC + "::CellCycleController.complete_operation", "C14",
-         params={"ctx": "obj:OperationContext"}, pre_state=ALIAS, raises=[],
-         callbacks=dict(GRAPH, **{"CellCycleController.release_all_resources": {"raises": (), "returns": "none"}}),
-         inline=False, returns="obj:OperationResult", modifies=["self.active_operations"],
-         ensures={"no-longer-active": "ctx.operation_id not in self.active_operations",
-                  "releases-through-release_all": "calls_to('release_all_resources') == 1",
+         params={"ctx": "obj:OperationContext"}, pre_state=ALIAS, raises=[], ghost_params={"r0": "str"},
+         callbacks=GRAPH, loops={REL_LOOP: REL_SPEC},
+         inline=False, returns="obj:OperationResult", modifies=["self.active_operations", "ctx.acquired_resources", "self.resources[*]"],
+         ensures={"no-tracked-resource-is-still-owned": "implies(r0 in old(ctx).acquired_resources and r0 in self.resources, self.resources[r0].owner != ctx.operation_id)",
+                  "untracked-resources-are-untouched": "implies(r0 not in old(ctx).acquired_resources and r0 in self.resources, "
+                                                       "self.resources[r0].owner == old(self).resources[r0].owner and "
+                                                       "self.resources[r0].hold_count == old(self).resources[r0].hold_count)",
+                  "no-longer-active": "ctx.operation_id not in self.active_operations",
                   "reports-success": "result.success is True"})
 contract(FC + "::CellCycleController.abort_operation", "C14",
-         params={"ctx": "obj:OperationContext"}, pre_state=ALIAS, raises=[],
-         callbacks=dict(GRAPH, **{"CellCycleController.release_all_resources": {"raises": (), "returns": "none"}}),
-         inline=False, returns="obj:OperationResult", modifies=["self.active_operations"],
-         ensures={"no-longer-active": "ctx.operation_id not in self.active_operations",
-                  "releases-through-release_all": "calls_to('release_all_resources') == 1",
+         params={"ctx": "obj:OperationContext"}, pre_state=ALIAS, raises=[], ghost_params={"r0": "str"},
+         callbacks=GRAPH, loops={REL_LOOP: REL_SPEC},
+         inline=False, returns="obj:OperationResult", modifies=["self.active_operations", "ctx.acquired_resources", "self.resources[*]"],
+         ensures={"no-tracked-resource-is-still-owned": "implies(r0 in old(ctx).acquired_resources and r0 in self.resources, self.resources[r0].owner != ctx.operation_id)",
+                  "untracked-resources-are-untouched": "implies(r0 not in old(ctx).acquired_resources and r0 in self.resources, "
+                                                       "self.resources[r0].owner == old(self).resources[r0].owner and "
+                                                       "self.resources[r0].hold_count == old(self).resources[r0].hold_count)",
+                  "no-longer-active": "ctx.operation_id not in self.active_operations",
                   "reports-failure": "result.success is False"})
 
 # ------------------------------------------------------------------ the coordinated operation
 RES_LOOP = "for resource_id in resources"
 contract(FS + "::CoordinationSystem.execute_operation", "C14",
          params={"work_fn": "callback", "validate_fn": "opt:callback", "resources": "opt:list:str"},
+         # acquire_resource / complete_operation / abort_operation are used through their CONTRACTS (registry-wide frames for an arbitrary resource id);
+         # work_fn / validate_fn / the checkpoints of advance() are havocked and assumed not to touch the controller's registry
          callbacks={"work_fn": {"returns": "any", "raises": ("Exception",)}, "validate_fn": {"returns": "any", "raises": ("Exception",)},
                     "CellCycleController.advance": {"returns": "enum:CheckpointResult", "raises": ("Exception",)},
-                    "CellCycleController.acquire_resource": {"returns": "enum:LockResult", "raises": ("ValueError",)},
-                    "CellCycleController.complete_operation": {"returns": "obj:OperationResult", "raises": ()},
-                    "CellCycleController.abort_operation": {"returns": "obj:OperationResult", "raises": ()},
                     "OperationContext.set_result": {"returns": "none", "raises": ()}},
+         ghost_params={"r0": "str"},
+         # a fresh operation id: nothing in the registry is owned under it when the operation starts
+         requires=["implies(r0 in self.controller.resources, self.controller.resources[r0].owner != operation_id)",
+                   # registry well-formedness: every lock is registered under its own id
+                   "implies(r0 in self.controller.resources, self.controller.resources[r0].resource_id == r0)"],
          callsite_pre={
              "work_fn": {"runs-at-most-once": "calls_to('work_fn') == 0",
                          "after-all-acquisitions": "ctx.resources_acquired is True and calls_to('abort_operation') == 0"},
              "validate_fn": {"only-after-work-completed": "calls_to('work_fn') == 1 and not raised('work_fn')",
                              "gets-the-work-result": "arg0 is returned('work_fn')"},
          },
-         loops={RES_LOOP: {"invariant": ["ctx.resources_acquired is False", "calls_to('work_fn') == 0"],
+         loops={RES_LOOP: {"invariant": ["ctx.resources_acquired is False", "calls_to('work_fn') == 0",                                          "calls_to('complete_operation') + calls_to('abort_operation') == 0",
+                                         # what the operation owns it tracks (so that releasing what it tracks releases everything)
+                                         "implies(r0 in self.controller.resources and self.controller.resources[r0].owner == ctx.operation_id, "
+                                         "r0 in ctx.acquired_resources)",
+                                         "implies(r0 in self.controller.resources, self.controller.resources[r0].resource_id == r0)",
+                                         # a resource that was not requested is neither tracked nor touched
+                                         "implies(r0 not in _iter, r0 not in ctx.acquired_resources and implies(r0 in self.controller.resources, "
+                                         "self.controller.resources[r0].owner == old(self).controller.resources[r0].owner and "
+                                         "self.controller.resources[r0].hold_count == old(self).controller.resources[r0].hold_count))"],
+                           "instances": [{"r0": "resource_id"}],
                            "step": {"blocked-stops-the-operation": "returned_in_iter('acquire_resource') != LockResult.BLOCKED"},
                            "property_level": ["blocked-stops-the-operation"]}},
          raises=[],
@@ -136,6 +168,12 @@ contract(FS + "::CoordinationSystem.execute_operation", "C14",
                                                   "calls_to('complete_operation') == 1 and (validate_fn is None or "
                                                   "(calls_to('validate_fn') == 1 and truthy(returned('validate_fn')))))",
              "failure-aborts": "implies(not result.success, calls_to('abort_operation') == 1)",
+             # THE statement, for an arbitrary registered resource: when the call returns it is not owned by this operation
+             "no-registered-resource-is-still-owned": "implies(r0 in self.controller.resources, self.controller.resources[r0].owner != operation_id)",
+             "no-longer-listed-as-active": "operation_id not in self.controller.active_operations",
+             "resources-never-requested-are-untouched": "implies((resources is None or r0 not in resources) and r0 in self.controller.resources, "
+                                                        "self.controller.resources[r0].owner == old(self).controller.resources[r0].owner and "
+                                                        "self.controller.resources[r0].hold_count == old(self).controller.resources[r0].hold_count)",
          })
 
 contract(FW + "::Watchdog.manual_kill", "C14",
